@@ -879,4 +879,119 @@ example : reachHolds ⟨"Cluster", "Cluster.PeerAdd", [("consensus", "AddPeer")]
     = false := by decide
 example : drives ("consensus", "LogPin") = true ∧ drives ("ipfs", "Pin") = true ∧ drives ("tracker", "Track") = true := by decide
 
+/-! ## Round 8c: the REST API over libp2p, the consensus component the daemons build, metrics -/
+
+/-- **the REST API is put on the cluster host only under the Raft guard**: every call site (both daemons) that leaves the
+    cluster's host in `API.host` sits under `GetConsensus() == Raft.ConfigKey()`; no site has an unreadable host or constructor -/
+theorem rest_shares_cluster_host_only_in_raft :
+    ∀ s ∈ Gen.daemonShape.restSites,
+      (s.given Gen.daemonShape = .cluster → s.guard = .only "raft") ∧ s.given Gen.daemonShape ≠ .other := by decide
+
+/-- api/rest does with the host what the model's `exposureOf` assumes -/
+theorem rest_pkg_shape :
+    Gen.daemonShape.newAPINilHost = true ∧ Gen.daemonShape.storesHostParam = true ∧ Gen.daemonShape.ownHostWhenAddr = true ∧
+    Gen.daemonShape.noHostNoListener = true ∧ Gen.daemonShape.listensOn = "api.host" ∧ Gen.daemonShape.hostWriters = [] := by decide
+
+/-- the same server - whose handler is wrapped by `basicAuthHandler(cfg.BasicAuthCredentials, …)` - serves the libp2p listener
+    (what C11's `auth_gate` protects is therefore what a libp2p caller meets) -/
+theorem rest_libp2p_behind_basic_auth :
+    Gen.daemonShape.authWrapsHandler = true ∧ Gen.daemonShape.libp2pServer = "api.server" := by decide
+
+/-- what each daemon exposes, for every configuration: a CRDT service peer and a follower have NO REST listener on the
+    cluster host (none at all, or one on a host of the API's own when `libp2p_listen_multiaddress` is set); a Raft service
+    peer without `libp2p_listen_multiaddress` serves REST on the cluster host -/
+theorem daemon_exposure_table :
+    (∀ addr, modelExposure ⟨serviceDir, .crdt, addr, false, false⟩ = (if addr then .ownHost else .noListener)) ∧
+    (∀ addr m, modelExposure ⟨followDir, m, addr, false, false⟩ = (if addr then .ownHost else .noListener)) ∧
+    (∀ addr, modelExposure ⟨serviceDir, .raft, addr, false, false⟩ = (if addr then .ownHost else .clusterHost)) := by
+  refine ⟨?_, ?_, ?_⟩
+  · intro addr; cases addr <;> decide
+  · intro addr m; cases addr <;> cases m <;> decide
+  · intro addr; cases addr <;> decide
+
+theorem modelExposure_irrelevant (i : DmnInput) : modelExposure i = modelExposure ⟨i.dir, i.mode, i.addr, false, false⟩ := rfl
+
+/-- **no untrusted swarm peer reaches a REST route through the cluster host**, for both daemons, every consensus, every
+    REST configuration (listen address, credentials) and every trust listing: the model's observation meets the clause -/
+theorem rest_closed_to_untrusted_swarm_peers :
+    ∀ (i : DmnInput), (i.dir = serviceDir ∨ i.dir = followDir) → dmnHolds i (modelServed i) = true := by
+  rintro ⟨dir, m, addr, auth, listed⟩ (h | h) <;> simp only at h <;> subst h <;>
+    cases m <;> cases addr <;> cases auth <;> cases listed <;> decide
+
+example : modelServed ⟨serviceDir, .raft, false, false, false⟩ = true ∧ modelServed ⟨serviceDir, .raft, false, true, false⟩ = false ∧
+    modelServed ⟨serviceDir, .crdt, false, false, false⟩ = false := by decide
+
+/-- refutation - the edit the source comment warns about: without the Raft guard (the REST API always gets the cluster host)
+    an unlisted swarm peer of a CRDT cluster gets `POST /pins` served -/
+def unguardedDaemon : DaemonShape :=
+  { Gen.daemonShape with restSites := [⟨serviceDir, "createCluster", "NewAPIWithHost", .cluster, .always⟩] }
+
+theorem unguarded_rest_would_open :
+    dmnHolds ⟨serviceDir, .crdt, false, false, false⟩
+      (swarmPeerReachesRest (daemonExposure unguardedDaemon serviceDir "crdt" false) false) = false := by decide
+
+/-- with credentials configured even that daemon refuses the swarm peer (C11 `auth_gate`) - the guard and basic auth are two
+    independent protections; C07 needs the first because credentials are optional -/
+example : dmnHolds ⟨serviceDir, .crdt, false, true, false⟩
+      (swarmPeerReachesRest (daemonExposure unguardedDaemon serviceDir "crdt" false) true) = true := by decide
+
+/-- **the daemons build the configured consensus component**, so `IsTrustedPeer` is answered by `shapeOf m`: the service
+    daemon builds raft.NewConsensus under `raft` and crdt.New under `crdt` (its `default` arm builds nothing), the
+    follower always builds crdt.New; each hands exactly that value to NewCluster -/
+theorem daemon_builds_configured_consensus :
+    (∀ m, modelDaemonConsensus serviceDir m = some (modeKey m)) ∧ (∀ m, modelDaemonConsensus followDir m = some "crdt") := by
+  constructor <;> intro m <;> cases m <;> decide
+
+/-- every consensus constructor call in cmd/ sits under the guard of its own kind or in the (CRDT-only) follower -/
+theorem consensus_sites_guarded :
+    ∀ s ∈ Gen.daemonShape.consSites, s.guard = .only s.ctor ∨ (s.dir = followDir ∧ s.ctor = "crdt") := by decide
+
+/-- refutation: a daemon whose `crdt` arm builds the Raft component would answer IsTrustedPeer = true for everybody -/
+example : daemonConsensus { Gen.daemonShape with consSites :=
+      [⟨serviceDir, "setupConsensus", "raft", .only "raft"⟩, ⟨serviceDir, "setupConsensus", "raft", .only "crdt"⟩] } serviceDir "crdt"
+    = some "raft" := by decide
+
+/-! ### metrics: an unauthenticated metric never authorizes anybody -/
+
+theorem injectMetric_keeps_auth (cl : Closure) (st : AuthState) (m : Metric) (caller : Nat) (ep : String) :
+    authorizeIn cl (injectMetric st m) caller ep = authorizeIn cl st caller ep := rfl
+
+/-- **whatever metrics arrive - any number, any claimed peer, any value - no authorization decision changes**: the policy
+    table, the trusted set and hence `authorizeIn` for every caller and endpoint are what they were -/
+theorem metrics_never_authorize (cl : Closure) (ms : List Metric) :
+    ∀ (st : AuthState) (caller : Nat) (ep : String),
+      authorizeIn cl (ms.foldl injectMetric st) caller ep = authorizeIn cl st caller ep ∧
+      (ms.foldl injectMetric st).pol = st.pol ∧ (ms.foldl injectMetric st).trustedSet = st.trustedSet := by
+  induction ms with
+  | nil => intro st caller ep; exact ⟨rfl, rfl, rfl⟩
+  | cons m ms ih =>
+    intro st caller ep
+    have h := ih (injectMetric st m) caller ep
+    exact ⟨h.1.trans (injectMetric_keeps_auth cl st m caller ep), h.2.1, h.2.2⟩
+
+example : authorizeIn Gen.closure ([⟨5, 1, true⟩, ⟨6, 9, true⟩].foldl injectMetric ⟨Gen.policy, [1], []⟩) 5 "Cluster.Pin" = false := by decide
+
+/-- what metrics DO influence - and the hoped-for "only trusted peers are candidates" is false when the monitor has no
+    peerset (CRDT service peers, followers): a peer outside the trusted set becomes an allocation candidate by one metric -/
+theorem metrics_can_nominate_untrusted :
+    ∃ (st : AuthState) (m : Metric), st.trustedSet.contains m.peer = false ∧ m.peer ∈ allocCandidates none (injectMetric st m) :=
+  ⟨⟨[], [1], []⟩, ⟨5, 1, true⟩, by decide, by decide⟩
+
+/-- with a peerset (Raft) a candidate is always a consensus peer, whatever is injected -/
+theorem candidates_within_peerset (ps : List Nat) (st : AuthState) : ∀ p ∈ allocCandidates (some ps) st, p ∈ ps := by
+  intro p hp
+  simp only [allocCandidates, List.mem_filter, List.contains_eq_mem, decide_eq_true_eq] at hp
+  exact hp.2
+
+/-! ### the dynamic counterpart of `open_handlers_never_drive` -/
+
+/-- what the model says an open handler calls passes the clause the recorded calls are checked with -/
+theorem open_reach_passes_hs : ∀ r ∈ Gen.openReach, hsHolds r.calls = true := by
+  intro r hr
+  simp only [hsHolds, hsClauses, List.all_cons, List.all_nil, Bool.and_true, List.all_eq_true, Bool.not_eq_true']
+  intro c hc
+  exact open_handlers_never_drive r hr c hc
+
+example : hsHolds [("ipfs", "ID"), ("tracker", "RecoverAll")] = false := by decide
+
 end CV.C07
